@@ -60,10 +60,8 @@ func (a *Authority) getProvisionerFromToken(token string) (provisioner.Interface
 	}
 
 	// This method will also validate the audiences for JWK provisioners.
-	a.adminMutex.RLock()
-	p, ok := a.provisioners.LoadByToken(tok, &claims.Claims)
-	a.adminMutex.RUnlock()
-	if !ok {
+	p, err := a.LoadProvisionerByToken(tok, &claims.Claims)
+	if err != nil {
 		return nil, nil, fmt.Errorf("provisioner not found or invalid audience (%s)", strings.Join(claims.Audience, ", "))
 	}
 	// ACME and SCEP provisioners authorize requests through their own protocols
@@ -316,9 +314,7 @@ func (a *Authority) authorizeRenew(ctx context.Context, cert *x509.Certificate) 
 		// certificate does not have a provisioner extension. LoadByCertificate
 		// returns the noop provisioner if this happens, and it allows
 		// certificate renewals.
-		a.adminMutex.RLock()
-		p, ok = a.provisioners.LoadByCertificate(cert)
-		a.adminMutex.RUnlock()
+		p, ok = a.loadProvisionerByCertificateOrNoop(cert)
 		// The noop provisioner is only meant for certificates that don't
 		// record a provisioner at all. If the database does name the
 		// provisioner of this certificate, that provisioner is gone.
@@ -506,4 +502,13 @@ func stripPort(rawurl string) string {
 	}
 	u.Host = u.Hostname()
 	return u.String()
+}
+
+// loadProvisionerByCertificateOrNoop looks up the provisioner of a certificate
+// in the collection, which answers with the noop provisioner for certificates
+// without a provisioner extension.
+func (a *Authority) loadProvisionerByCertificateOrNoop(cert *x509.Certificate) (provisioner.Interface, bool) {
+	a.adminMutex.RLock()
+	defer a.adminMutex.RUnlock()
+	return a.provisioners.LoadByCertificate(cert)
 }
